@@ -200,6 +200,28 @@ def run(ctx):
             r.fail(inst, func=f.name, sig=f'{fld[1]} not null-checked', loc=sc.loc, msg=f'the symbol stored in {fld[1]} is not tested: a library without it crashes on first use')
     r.require_min(5)
 
+    # ---------------- R19g every helper sees the operation's own erasure list
+    r = ctx.rule('R19g', 'decode / reconstruct hand their own missing-index list to every helper that selects rows or builds inverse rows',
+                 'survivor selection, inverse and inverse rows must describe the same erasure set: a shortened private list yields rows for the wrong survivors')
+    for fname in ('isa_l_decode', 'isa_l_reconstruct'):
+        f = P.fn(fname)
+        C = Canon(P, f)
+        mine = [n for ty, n in f.params if ty == 'i32*']
+        if not mine:
+            raise AnalysisBroken(f'anchor vanished: {fname} has no missing-index list parameter')
+        ml = mine[0]
+        for c in [i for i in f.insts() if i.op == 'call' and i.callee in ('@isa_l_get_decode_matrix', '@get_inverse_rows', '@convert_list_to_bitmap', '@get_num_missing_elements')]:
+            g = P.fns.get(c.callee)
+            lists = [ai for ai, (ty, n) in enumerate(g.params) if ty == 'i32*'] if g is not None else []
+            for ai in lists[-1:]:
+                inst = f'{fname}: {c.callee[1:]} at line {c.line} receives the missing-index list of the operation'
+                if strip_ptr_casts(f, c.ops[ai]) == ml:
+                    r.ok(inst, func=f.name, loc=c.loc)
+                else:
+                    r.fail(inst, func=f.name, sig=f'{c.callee[1:]} given {C.val(c.ops[ai])[:40]}', loc=c.loc,
+                           msg=f'{c.callee[1:]} is called with {C.val(c.ops[ai])} instead of the missing-index list of {fname}: the helpers no longer agree on the erasure set')
+    r.require_min(6)
+
     # ---------------- R19f cursors of get_inverse_rows
     r = ctx.rule('R19f', 'get_inverse_rows: both column cursors advance on their own branch; the missing-data row selector is the advancing cursor',
                  'a cursor that stays 0 combines every missing column with the first missing row (wrong parity rebuild for >= 2 missing data)')
